@@ -106,6 +106,18 @@ func (s *State) simplifySelf(start *State, expanded map[*State]bool) bool {
 	return false
 }
 
+func sameArgs(a, b []string) bool {
+	if len(a) != len(b) {
+		return false
+	}
+	for i := range a {
+		if a[i] != b[i] {
+			return false
+		}
+	}
+	return true
+}
+
 func removeTransitionAt(idx int, arr StateTransitions) StateTransitions {
 	res := make([]*Transition, len(arr)-1)
 	copy(res, arr[:idx])
@@ -125,7 +137,7 @@ func (s *State) has(tr *Transition) bool {
 // Parse tries to navigate into the FSM according to the provided args
 func (s *State) Parse(args []string) error {
 	pc := matcher.NewParseContext()
-	ok := s.apply(args, pc)
+	ok := s.apply(args, pc, nil)
 	if !ok {
 		return fmt.Errorf("incorrect usage")
 	}
@@ -156,13 +168,22 @@ func fillContainers(containers map[*container.Container][]string) error {
 	return nil
 }
 
-func (s *State) apply(args []string, pc matcher.ParseContext) bool {
+// apply explores the FSM depth first. idle lists the states entered since the last time an argument was consumed (or the
+// end-of-options marker was seen): re-entering one of them now would repeat the very same search, for ever.
+func (s *State) apply(args []string, pc matcher.ParseContext, idle []*State) bool {
 	if len(args) > 0 {
 		arg := args[0]
 
 		if !pc.RejectOptions && arg == "--" {
 			pc.RejectOptions = true
 			args = args[1:]
+			idle = nil
+		}
+	}
+
+	for _, seen := range idle {
+		if seen == s {
+			return false
 		}
 	}
 
@@ -186,7 +207,12 @@ func (s *State) apply(args []string, pc matcher.ParseContext) bool {
 	}
 
 	for _, m := range matches {
-		if ok := m.tr.Next.apply(m.rem, m.pc); ok {
+		var path []*State
+		if m.pc.RejectOptions == pc.RejectOptions && sameArgs(m.rem, args) {
+			// nothing consumed, nothing learnt: remember where we have been
+			path = append(idle[:len(idle):len(idle)], s)
+		}
+		if ok := m.tr.Next.apply(m.rem, m.pc, path); ok {
 			pc.Merge(m.pc)
 			return true
 		}
